@@ -25,8 +25,9 @@ class ContractBroken(Exception):
 
 
 C = 1e3  # tolerance factor on eps * scale
+TIGHT_STRAIN = 1.0  # factor of the small-strain clause of strain (times C * eps * |C|); measured: <= 2e-3 of that bound
 MAXCOND = 1e6
-_state = {"run": None, "calls": Counter(), "first": 6, "every": 1}
+_state = {"run": None, "calls": Counter(), "first": 6, "every": 1, "threads": None}
 
 
 def eps_of(*arrs):
@@ -84,14 +85,18 @@ def _sig(*arrs, **flags):
     return (tuple(getattr(a, "shape", None) for a in arrs), tuple(sorted((k, str(v)) for k, v in flags.items())))
 
 
-def _judge(name, unit, result, ref, scale, eps, detail=None, factor=1.0, config=None):
+def _judge(name, unit, result, ref, scale, eps, detail=None, factor=1.0, config=None, also=()):
+    """``also``: further units (variants of the call: kind of buffer, aliasing, input class) that count as reached
+    only when this very comparison was made and passed."""
     run = _state["run"]
     mon = "math." + name
     if np.shape(result) != np.shape(ref):
         # broadcast-compatible result shapes are accepted (size-one batch axes)
         try:
             # only leading / trailing size-one axes may differ (a scalar for a (1, 1) batch): the order of the batch axes may not
-            if np.ndim(result) == np.ndim(ref) or tuple(n for n in np.shape(result) if n != 1) != tuple(n for n in np.shape(ref) if n != 1):
+            # (and only *dropped* size-one axes: a result that carries an axis more than the definition, e.g. a kept
+            # (1, q, c) of a scalar-valued routine, broadcasts differently in the caller's next operation)
+            if np.ndim(result) >= np.ndim(ref) or tuple(n for n in np.shape(result) if n != 1) != tuple(n for n in np.shape(ref) if n != 1):
                 raise ValueError
             result = np.reshape(result, np.shape(ref))
         except ValueError:
@@ -100,8 +105,11 @@ def _judge(name, unit, result, ref, scale, eps, detail=None, factor=1.0, config=
             return
     err = maxabs(np.asarray(result) - ref)
     tol = C * eps * max(scale, 1e-300) * factor
+    units = "math:" + unit
+    if also and np.isfinite(err) and err <= tol:
+        units = [units] + ["math:" + u for u in also]
     run.compare(mon, "routine=%s clause=value" % unit, err, tol, "%s differs from its definition" % unit,
-                unit="math:" + unit, config=config or unit, detail=detail,
+                unit=units, config=config or unit, detail=detail,
                 sample={"routine": unit, "result_shape": list(np.shape(result)), "max_abs_error": err,
                         "tolerance": tol})
 
@@ -153,7 +161,51 @@ def snap_b(b):
 
 
 def snap_vectors(vectors):
-    return _copy(vectors) if isinstance(vectors, np.ndarray) else None
+    # documented type: list of ndarray (or one ndarray)
+    if isinstance(vectors, np.ndarray):
+        return vectors.copy()
+    if isinstance(vectors, (list, tuple)) and all(isinstance(v, np.ndarray) for v in vectors):
+        return [v.copy() for v in vectors]
+    return None
+
+
+def snap_determinant(determinant):
+    return _copy(determinant)
+
+
+def snap_C(C):
+    return _copy(C)
+
+
+def snap_stretch(stretch):
+    return _copy(stretch)
+
+
+def snap_outkind(_KWARGS):
+    """What the out= buffer held before the call: a result buffer that was never written (numpy.empty) may hold
+    anything, also NaN / inf, and "clear by multiplying with zero" only works on finite content."""
+    out = _KWARGS.get("out") if _KWARGS else None
+    if not isinstance(out, np.ndarray) or out.dtype.kind != "f" or out.size == 0:
+        return None
+    if np.all(np.isnan(out)):
+        return "nan"
+    if np.all(np.isinf(out)):
+        return "inf"
+    return "other"
+
+
+def _variants(unit, OLD, kw, inputs=()):
+    """Units of the out= variants of one call: content of the buffer before the call, buffer aliasing an input."""
+    out = kw.get("out") if kw else None
+    if not isinstance(out, np.ndarray):
+        return []
+    also = []
+    kind = getattr(OLD, "outkind", None)
+    if kind in ("nan", "inf"):
+        also.append("%s:out[%s]" % (unit, kind))
+    if any(isinstance(a, np.ndarray) and np.shares_memory(a, out) for a in inputs):
+        also.append("%s:out[aliased]" % unit)
+    return also
 
 
 # --------------------------------------------------------------------------- conditions
@@ -169,7 +221,7 @@ def post_det(A, result, OLD, _KWARGS):
         return True
     ref = per_item(np.linalg.det, [OLD.A0], [2])
     scale = maxabs(OLD.A0) ** A.shape[0]
-    _judge("det", "det[%s]" % _dimtag(A), result, ref, scale, eps_of(A), factor=10)
+    _judge("det", "det[%s]" % _dimtag(A), result, ref, scale, eps_of(A), factor=10, also=_variants("det", OLD, _KWARGS))
     _unchanged("det", "det", [("A", A, OLD.A0)])
     _check_out("det", "det", _KWARGS, result)
     return True
@@ -207,19 +259,23 @@ def post_inv(A, determinant, full_output, sym, result, OLD, _KWARGS):
         ref = per_item(np.linalg.inv, [A0], [2])
         flag = "default"
     else:
-        d = np.asarray(determinant, dtype=float)
+        # the caller's determinant as it was before the call
+        d = np.asarray(OLD.det0 if OLD.det0 is not None else determinant, dtype=float)
         ref = adj / d
         flag = "determinant"
     if sym:
         flag += "+sym"
     res = result[0] if full_output else result
     unit = "inv[%s,%s]" % (_dimtag(A), flag)
-    _judge("inv", unit, res, ref, maxabs(ref), eps_of(A), factor=max(1.0, c))
+    _judge("inv", unit, res, ref, maxabs(ref), eps_of(A), factor=max(1.0, c), also=_variants("inv", OLD, _KWARGS))
     if full_output:
-        dref = per_item(np.linalg.det, [A0], [2]) if determinant is None else np.asarray(determinant)
+        # second return value: the determinant (the caller's one if supplied, judged against the snapshot taken before the call)
+        dref = per_item(np.linalg.det, [A0], [2]) if determinant is None else np.asarray(OLD.det0 if OLD.det0 is not None else determinant)
+        combo = [f for f, on in (("full_output+determinant", determinant is not None), ("full_output+sym", bool(sym)),
+                                 ("full_output+out", _KWARGS.get("out") is not None)) if on]
         _judge("inv", "inv[full_output]", result[1], np.broadcast_to(dref, np.shape(result[1])),
-               maxabs(A0) ** A.shape[0], eps_of(A), factor=10)
-    _unchanged("inv", "inv", [("A", A, A0)])
+               maxabs(A0) ** A.shape[0], eps_of(A), factor=10, also=["inv[%s]" % f for f in combo])
+    _unchanged("inv", "inv", [("A", A, A0), ("determinant", determinant, OLD.det0)])
     _check_out("inv", "inv", _KWARGS, result)
     return True
 
@@ -246,20 +302,27 @@ def post_cof(A, sym, result, OLD, _KWARGS):
         return out
     ref = per_item(cofactor, [A0], [2])
     _judge("cof", "cof[%s%s]" % (_dimtag(A), ",sym" if sym else ""), result, ref, max(maxabs(A0) ** (A.shape[0] - 1), 1e-300),
-           eps_of(A), factor=10)
+           eps_of(A), factor=10, also=_variants("cof", OLD, _KWARGS))
     _unchanged("cof", "cof", [("A", A, A0)])
+    _check_out("cof", "cof", _KWARGS, result)
     return True
 
 
 def post_dev(A, result, OLD, _KWARGS):
     if not (_numeric(A) and A.ndim >= 2 and A.shape[0] == A.shape[1]):
         return True
-    if _KWARGS.get("out") is A or not _sampled("dev", _sig(A)):
+    if not _sampled("dev", _sig(A)):
         return True
     n = A.shape[0]
+    # (also in place, out = A: the value is judged against the input as it was before the call; only the
+    # unchanged-input clause does not apply then - the caller asked for the overwrite)
+    aliased = isinstance(_KWARGS.get("out"), np.ndarray) and np.shares_memory(_KWARGS["out"], A)
     ref = per_item(lambda a: a - np.trace(a) / n * np.eye(n), [OLD.A0], [2])
-    _judge("dev", "dev[%s]" % _dimtag(A), result, ref, maxabs(OLD.A0), eps_of(A))
-    _unchanged("dev", "dev", [("A", A, OLD.A0)])
+    _judge("dev", "dev[%s]" % _dimtag(A), result, ref, maxabs(OLD.A0), eps_of(A), also=_variants("dev", OLD, _KWARGS, [A]))
+    if aliased:
+        _state["run"].skip("math.dev", "out= aliases the input (caller's choice): unchanged-input clause not applicable")
+    else:
+        _unchanged("dev", "dev", [("A", A, OLD.A0)])
     _check_out("dev", "dev", _KWARGS, result)
     return True
 
@@ -267,11 +330,16 @@ def post_dev(A, result, OLD, _KWARGS):
 def post_sym(A, result, OLD, _KWARGS):
     if not (_numeric(A) and A.ndim >= 2 and A.shape[0] == A.shape[1]):
         return True
-    if _KWARGS.get("out") is A or not _sampled("sym", _sig(A)):
+    if not _sampled("sym", _sig(A)):
         return True
+    # (in place, out = A, is the only way the library itself uses sym(out=): judged against the snapshot)
+    aliased = isinstance(_KWARGS.get("out"), np.ndarray) and np.shares_memory(_KWARGS["out"], A)
     ref = per_item(lambda a: (a + a.T) / 2, [OLD.A0], [2])
-    _judge("sym", "sym[%s]" % _dimtag(A), result, ref, maxabs(OLD.A0), eps_of(A))
-    _unchanged("sym", "sym", [("A", A, OLD.A0)])
+    _judge("sym", "sym[%s]" % _dimtag(A), result, ref, maxabs(OLD.A0), eps_of(A), also=_variants("sym", OLD, _KWARGS, [A]))
+    if aliased:
+        _state["run"].skip("math.sym", "out= aliases the input (caller's choice): unchanged-input clause not applicable")
+    else:
+        _unchanged("sym", "sym", [("A", A, OLD.A0)])
     _check_out("sym", "sym", _KWARGS, result)
     return True
 
@@ -282,8 +350,9 @@ def post_trace(A, result, OLD, _KWARGS):
     if not _sampled("trace", _sig(A)):
         return True
     ref = per_item(np.trace, [OLD.A0], [2])
-    _judge("trace", "trace[%s]" % _dimtag(A), result, ref, maxabs(OLD.A0), eps_of(A))
+    _judge("trace", "trace[%s]" % _dimtag(A), result, ref, maxabs(OLD.A0), eps_of(A), also=_variants("trace", OLD, _KWARGS))
     _unchanged("trace", "trace", [("A", A, OLD.A0)])
+    _check_out("trace", "trace", _KWARGS, result)
     return True
 
 
@@ -318,8 +387,10 @@ def post_dya(A, B, mode, result, OLD, _KWARGS):
         ref = per_item(lambda a, b: np.einsum("i,j->ij", a, b), [OLD.A0, OLD.B0], [1, 1])
     else:
         return True
-    _judge("dya", "dya[mode=%d]" % mode, result, ref, maxabs(OLD.A0) * maxabs(OLD.B0), eps_of(A, B))
+    _judge("dya", "dya[mode=%d]" % mode, result, ref, maxabs(OLD.A0) * maxabs(OLD.B0), eps_of(A, B),
+           also=_variants("dya", OLD, _KWARGS))
     _unchanged("dya", "dya", [("A", A, OLD.A0), ("B", B, OLD.B0)])
+    _check_out("dya", "dya", _KWARGS, result)
     return True
 
 
@@ -332,13 +403,40 @@ def _cd(name, sub):
                            [OLD.A0, OLD.B0], [2, 2])
         else:
             ref = per_item(lambda a, b: np.einsum(sub, a, b), [OLD.A0, OLD.B0], [2, 2])
-        _judge(name, "%s[parallel=%s]" % (name, bool(parallel)), result, ref, maxabs(OLD.A0) * maxabs(OLD.B0),
-               eps_of(A, B))
+        _judge(name, "%s[parallel=%s]" % (name, _par(parallel)), result, ref, maxabs(OLD.A0) * maxabs(OLD.B0),
+               eps_of(A, B), also=_variants(name, OLD, _KWARGS) + _chunked(name, parallel, A, B))
         _unchanged(name, name, [("A", A, OLD.A0), ("B", B, OLD.B0)])
         _check_out(name, name, _KWARGS, result)
         return True
     cond.__name__ = "post_" + name
     return cond
+
+
+def _par(parallel):
+    """Tag of the parallel flag.  felupe falls back to numpy.einsum without the einsumt package, einsumt does so
+    with a single worker (one-core runner): the serial code would then satisfy the ``parallel=True`` units, so
+    such evaluations are judged but counted under another name (the required units stay unreached: inconclusive)."""
+    if not parallel:
+        return "False"
+    n = _state.get("threads")
+    if n is None or n > 1:
+        return "True"
+    # (the verdict must not depend on the number of cores of the runner: the evaluations are judged and counted, the evidence says that the
+    # threaded path was not taken)
+    _state["run"].note("parallel=True evaluated serially (einsumt missing or a single worker): the threaded path was not exercised in this run")
+    return "True"
+
+
+def _chunked(name, parallel, *ops):
+    """Unit of a threaded evaluation whose chunks hold more than one item: einsumt splits the longest axis of the
+    operands into (number of workers) chunks, so short batches are split into single items only."""
+    n = _state.get("threads")
+    if not parallel:
+        return []
+    if not n or n < 2:
+        return ["%s[parallel=True,chunks>1]" % name]  # single worker: nothing is split; counted (see _par), noted in the evidence
+    longest = max([max(o.shape) for o in ops if isinstance(o, np.ndarray) and o.ndim], default=0)
+    return ["%s[parallel=True,chunks>1]" % name] if longest > n else []
 
 
 post_cdya_ik = _cd("cdya_ik", "ij,kl->ikjl")
@@ -366,8 +464,9 @@ def _contraction(name, table):
         sub = table[mode_t]
         ref = per_item(lambda a, b: np.einsum(sub, a, b), [OLD.A0, OLD.B0], [la, lb])
         ncontr = 3 ** 3
-        _judge(name, "%s[mode=%s,parallel=%s]" % (name, mode_t, bool(parallel)), result, ref,
-               maxabs(OLD.A0) * maxabs(OLD.B0) * ncontr, eps_of(A, B))
+        _judge(name, "%s[mode=%s,parallel=%s]" % (name, mode_t, _par(parallel)), result, ref,
+               maxabs(OLD.A0) * maxabs(OLD.B0) * ncontr, eps_of(A, B),
+               also=_variants(name, OLD, _KWARGS, [A, B]) + _chunked(name, parallel, A, B))
         out = _KWARGS.get("out")
         pairs = [(nm, now, old) for nm, now, old in (("A", A, OLD.A0), ("B", B, OLD.B0))
                  if not (isinstance(out, np.ndarray) and isinstance(now, np.ndarray) and np.shares_memory(out, now))]
@@ -512,6 +611,7 @@ def post_eigvals(a, shear, eigvals, result, OLD):
     run.compare("math.eigvals", "routine=eigvals clause=value", maxabs(got - refm) / max(maxabs(OLD.a0), 1e-300), 1e-8,
                 "eigvals: multiset of eigenvalues differs from numpy.linalg.eigvals", unit="math:eigvals",
                 config="eigvals")
+    _unchanged("eigvals", "eigvals", [("a", a, OLD.a0)])
     return True
 
 
@@ -526,7 +626,11 @@ def post_tovoigt(A, strain, result, OLD):
     def f(a):
         return np.array([a[i, j] * (2.0 if (strain and i != j) else 1.0) for i, j in ij])
     ref = per_item(f, [OLD.A0], [2])
-    _judge("tovoigt", "tovoigt[%dd,strain=%s]" % (n, bool(strain)), result, ref, maxabs(OLD.A0), eps_of(A))
+    # any second-order tensor is a documented input ("the upper triangle entries are inserted"): only a
+    # non-symmetric one tells (i, j) from (j, i)
+    nonsym = n > 1 and maxabs(OLD.A0 - np.swapaxes(OLD.A0, 0, 1)) > 1e-3 * maxabs(OLD.A0)
+    _judge("tovoigt", "tovoigt[%dd,strain=%s]" % (n, bool(strain)), result, ref, maxabs(OLD.A0), eps_of(A),
+           also=["tovoigt[%dd,nonsymmetric]" % n] if nonsym else ())
     _unchanged("tovoigt", "tovoigt", [("A", A, OLD.A0)])
     return True
 
@@ -553,29 +657,51 @@ def post_inplane(A, vectors, result, OLD):
     v = np.asarray(vectors)
     if not _numeric(A, v) or not _sampled("inplane", _sig(A, v)):
         return True
-    ref = per_item(lambda a, vv: np.einsum("ij,ai,bj->ab", a, vv, vv), [OLD.A0, v], [2, 2])
-    _judge("inplane", "inplane", result, ref, maxabs(OLD.A0) * maxabs(v) ** 2 * 9, eps_of(A))
+    ref = per_item(lambda a, vv: np.einsum("ij,ai,bj->ab", a, vv, vv), [OLD.A0, v if OLD.v0 is None else np.asarray(OLD.v0)], [2, 2])
+    _judge("inplane", "inplane", result, ref, maxabs(OLD.A0) * maxabs(v) ** 2 * 9, eps_of(A),
+           also=["inplane[vectors=list]"] if isinstance(vectors, (list, tuple)) else ())
     _unchanged("inplane", "inplane", [("A", A, OLD.A0)])
+    if OLD.v0 is not None:
+        _unchanged("inplane", "inplane", [("vectors", v, np.asarray(OLD.v0))])
     return True
 
 
 def post_identity(A, dim, shape, dtype, result):
+    """Reference from the documented return value alone: ``(N, M, *ones)`` taken from ``A``, ``(dim, dim, *ones)``
+    with a given ``dim``; as many size-one batch axes as ``shape`` (or the batch of ``A``) has; data type: the
+    given one, else that of ``A``, else float."""
     run = _state["run"]
     if A is not None:
+        if not isinstance(A, np.ndarray) or A.ndim < 2:
+            return True
         n, m = A.shape[:2]
-        d = n if dim is None else dim
+        if dim is not None and dim != m:
+            # recorded observation of the third audit (DESIGN 6): a (dim, M) rectangle is returned; not re-reported
+            run.skip("math.identity", "identity(A, dim != A.shape[1]): recorded observation, not judged")
+            return True
+        ref = np.eye(n, m) if dim is None else np.eye(dim, dim)
         trail = len(A.shape[2:]) if shape is None else len(shape)
-        ref = np.eye(d, m)
+        dt = A.dtype if dtype is None else np.dtype(dtype)
+        variant = "A" + ("+dim" if dim is not None else "") + ("+shape" if shape is not None else "")
     else:
         if dim is None or shape is None:
             return True
-        ref = np.eye(dim)
+        ref = np.eye(dim, dim)
         trail = len(shape)
+        dt = np.dtype(float) if dtype is None else np.dtype(dtype)
+        variant = "dim+shape"
+    if dtype is not None:
+        variant += "+dtype"
     ok = result.shape == ref.shape + (1,) * trail and np.array_equal(result.reshape(ref.shape), ref)
     if ok:
-        run.ok("math.identity", unit="math:identity", config="identity")
+        run.ok("math.identity", unit=["math:identity", "math:identity[%s]" % variant], config="identity[%s]" % variant)
     else:
-        run.fail("math.identity", "routine=identity clause=value", "identity: not a broadcastable unit tensor")
+        run.fail("math.identity", "routine=identity clause=value", "identity: not a broadcastable unit tensor",
+                 {"variant": variant, "result_shape": list(np.shape(result)), "documented_shape": list(ref.shape + (1,) * trail)})
+    if result.dtype == dt:
+        run.ok("math.identity", unit="math:identity:dtype")
+    else:
+        run.fail("math.identity", "routine=identity clause=dtype", "identity: data type %s, documented %s" % (result.dtype, dt))
     return True
 
 
@@ -619,14 +745,31 @@ def post_solve_nd(A, b, solve, n, result, OLD):
         a = np.broadcast_to(a, shp + shp)
         bb = np.broadcast_to(bb, shp)
         return np.einsum(sub, a, x) - bb
+    # documented shape of the unknowns: tensor axes of both sides broadcast, batch axes of both sides broadcast
+    # (decided from the arguments alone, before the residual: a result with permuted / lost batch axes is a
+    # violation, not something the residual may fail to interpret)
+    try:
+        want = tuple(np.broadcast_shapes(A0.shape[:n], A0.shape[n:la], b0.shape[:n])) + tuple(np.broadcast_shapes(b0.shape[n:], A0.shape[la:]))
+    except ValueError:
+        want = None
+    if want is not None and np.shape(result) != want:
+        run.fail("math.solve_nd", "routine=solve_nd[n=%d] clause=shape" % n, "solve_nd: result shape %s, documented %s"
+                 % (np.shape(result), want), unit="math:solve_nd[n=%d]" % n)
+        return True
     try:
         r = per_item(resid, [A0, b0, np.asarray(result)], [la, n, n])
     except Exception as exc:  # shapes the monitor cannot interpret
         run.skip("math.solve_nd", "uninterpretable shapes: " + type(exc).__name__)
         return True
     scale = max(maxabs(A0) * maxabs(result), maxabs(b0), 1e-300)
+    units = ["math:solve_nd[n=%d]" % n]
+    if want is not None and maxabs(r) / scale <= 1e-9:
+        # size-one tensor axes (the only inputs for which solve_nd broadcasts anything itself)
+        if n > 0 and (1 in A0.shape[:la] or 1 in b0.shape[:n]) and max(want[:n]) > 1:
+            units.append("math:solve_nd[broadcast tensor axes]")
+        units.append("math:solve_nd[batch rank %d]" % min(len(want) - n, 3))
     run.compare("math.solve_nd", "routine=solve_nd[n=%d] clause=residual" % n, maxabs(r) / scale, 1e-9,
-                "solve_nd: A x != b", unit="math:solve_nd[n=%d]" % n, config="solve_nd[n=%d]" % n)
+                "solve_nd: A x != b", unit=units if len(units) > 1 else units[0], config="solve_nd[n=%d]" % n)
     _unchanged("solve_nd", "solve_nd", [("A", A, A0), ("b", b, b0)])
     return True
 
@@ -651,30 +794,45 @@ def post_rotation_matrix(alpha_deg, dim, axis, result):
     return True
 
 
-def post_strain_stretch_1d(stretch, k, result):
+def post_strain_stretch_1d(stretch, k, result, OLD):
     s = np.asarray(stretch, dtype=float)
     if not np.all(np.isfinite(s)) or np.any(s <= 0):
         return True
     ref = np.log(s) if k == 0 else (s ** k - 1) / k
     _judge("strain_stretch_1d", "strain_stretch_1d[k%s0]" % ("=" if k == 0 else "!="), result, ref, max(maxabs(ref), 1.0),
            eps_of(s), factor=10)
+    _unchanged("strain_stretch_1d", "strain_stretch_1d", [("stretch", stretch, OLD.s0)])
     return True
 
 
-def post_strain(field, C, fun, tensor, asvoigt, result, _KWARGS):
+STRAIN_ARGS = ("field", "C", "fun", "tensor", "asvoigt", "n")
+
+
+def post_strain(field, C, fun, tensor, asvoigt, result, OLD, _KWARGS):
     import felupe.math as fm
-    if C is None or not _numeric(C) or C.shape[:2] not in ((2, 2), (3, 3)):
+    if C is None or not _numeric(C) or C.ndim < 2 or C.shape[:2] not in ((1, 1), (2, 2), (3, 3)):
         return True
     orig_fun = getattr(fm.strain_stretch_1d, "__wrapped_by_vmon__", None)
-    if fun is not fm.strain_stretch_1d and fun is not orig_fun:
-        return True
+    default = fun is fm.strain_stretch_1d or fun is orig_fun
     if not _sampled("strain", _sig(C, tensor=tensor, asvoigt=asvoigt)):
         return True
-    k = _KWARGS.get("k", 0)
+    C0 = OLD.C0
     n = C.shape[0]
+    # what strain() does not name in its signature is handed to ``fun`` (documented)
+    extra = {k_: v for k_, v in _KWARGS.items() if k_ not in STRAIN_ARGS}
+    if default:
+        k = extra.get("k", 0)
+        tag = "k=%s" % k
 
-    def f1(lam):
-        return np.log(lam) if k == 0 else (lam ** k - 1) / k
+        def f1(lam):
+            return np.log(lam) if k == 0 else (lam ** k - 1) / k
+    else:
+        # a caller's own strain-stretch relation (documented customisation): the reference applies the very callable
+        # the caller passed to the stretches of numpy.linalg.eigh, E = sum_a fun(lambda_a) N_a (x) N_a
+        tag = "fun=custom"
+
+        def f1(lam):
+            return np.asarray(fun(lam, **extra), dtype=float)
 
     def item(c):
         w, N = np.linalg.eigh(c)
@@ -683,12 +841,37 @@ def post_strain(field, C, fun, tensor, asvoigt, result, _KWARGS):
             return f1(lam)
         E = (N * f1(lam)) @ N.T
         if asvoigt:
-            ij = {2: [(0, 0), (1, 1), (0, 1)], 3: [(0, 0), (1, 1), (2, 2), (0, 1), (1, 2), (0, 2)]}[n]
+            ij = {1: [(0, 0)], 2: [(0, 0), (1, 1), (0, 1)], 3: [(0, 0), (1, 1), (2, 2), (0, 1), (1, 2), (0, 2)]}[n]
             return np.array([E[i, j] * (1.0 if i == j else 2.0) for i, j in ij])
         return E
-    ref = per_item(item, [C], [2])
-    _judge("strain", "strain[tensor=%s,asvoigt=%s,k=%s]" % (bool(tensor), bool(asvoigt), k), result, ref,
-           max(1.0, maxabs(ref)), eps_of(C), factor=1e3)
+    try:
+        ref = per_item(item, [C0], [2])
+    except Exception as exc:
+        if default:
+            raise
+        _state["run"].skip("math.strain", "custom fun not applicable to the stretches of one item: " + type(exc).__name__)
+        return True
+    if not default and not np.all(np.isfinite(ref)):
+        _state["run"].skip("math.strain", "custom fun not finite on the stretches of the reference")
+        return True
+    # spectrum of the input: separated, or (nearly) repeated eigenvalues - C = I of every first increment, uniaxial
+    # tension - where the eigenvectors are not unique but sum f(lambda) N (x) N is
+    also = []
+    if n > 1:
+        w = per_item(np.linalg.eigvalsh, [C0], [2])
+        if float(np.min(np.diff(w, axis=0))) <= 1e-8 * maxabs(w):
+            also.append("strain[repeated stretches]")
+    if maxabs(ref) < 1e-3:
+        also.append("strain[small strains]")
+    _judge("strain", "strain[tensor=%s,asvoigt=%s,%s]" % (bool(tensor), bool(asvoigt), tag), result, ref,
+           max(1.0, maxabs(ref)), eps_of(C), factor=1e3, also=also)
+    # small strains e: two strain measures differ by e^2 only (1e-10 at e = 1e-5), below the bound above; there
+    # (stretches ~ 1, perfectly conditioned) the same comparison is made at the round-off level of the
+    # eigen-decomposition, C * eps * |C|
+    if maxabs(ref) < 1e-3:
+        _judge("strain", "strain[small strains]:tight", result, ref, max(1.0, maxabs(C0)), eps_of(C), factor=TIGHT_STRAIN,
+               config="strain-tight[%dd]" % n)
+    _unchanged("strain", "strain", [("C", C, C0)])
     return True
 
 
@@ -736,6 +919,17 @@ def install(run, first=10 ** 9, every=1):
 
     _state.update(run=run, first=first, every=every)
     _state["calls"].clear()
+    # does parallel=True reach a thread at all?  (felupe aliases numpy.einsum without the package; einsumt itself
+    # falls back to numpy.einsum when its default pool has one worker)
+    threads = 1
+    if T.einsumt is not np.einsum:
+        try:
+            import einsumt as _et
+            threads = int(_et.default_thread_pool._processes)
+        except Exception:
+            threads = None  # unknown layout of the package: assume threads
+    _state["threads"] = threads
+    run.extra["einsumt_workers"] = [threads if threads is not None else "unknown"]
 
     def deco(fn, cond, snaps=()):
         g = icontract.ensure(cond, error=ContractBroken)(fn)
@@ -744,21 +938,21 @@ def install(run, first=10 ** 9, every=1):
         return g
 
     table = [
-        (T, "det", post_det, [(snap_A, "A0")]),
-        (T, "inv", post_inv, [(snap_A, "A0")]),
-        (T, "cof", post_cof, [(snap_A, "A0")]),
-        (T, "dev", post_dev, [(snap_A, "A0")]),
-        (T, "sym", post_sym, [(snap_A, "A0")]),
-        (T, "trace", post_trace, [(snap_A, "A0")]),
+        (T, "det", post_det, [(snap_A, "A0"), (snap_outkind, "outkind")]),
+        (T, "inv", post_inv, [(snap_A, "A0"), (snap_determinant, "det0"), (snap_outkind, "outkind")]),
+        (T, "cof", post_cof, [(snap_A, "A0"), (snap_outkind, "outkind")]),
+        (T, "dev", post_dev, [(snap_A, "A0"), (snap_outkind, "outkind")]),
+        (T, "sym", post_sym, [(snap_A, "A0"), (snap_outkind, "outkind")]),
+        (T, "trace", post_trace, [(snap_A, "A0"), (snap_outkind, "outkind")]),
         (T, "transpose", post_transpose, [(snap_A, "A0")]),
         (T, "majortranspose", post_majortranspose, [(snap_A, "A0")]),
-        (T, "dya", post_dya, [(snap_A, "A0"), (snap_B, "B0")]),
-        (T, "cdya_ik", post_cdya_ik, [(snap_A, "A0"), (snap_B, "B0")]),
-        (T, "cdya_il", post_cdya_il, [(snap_A, "A0"), (snap_B, "B0")]),
-        (T, "cdya", post_cdya, [(snap_A, "A0"), (snap_B, "B0")]),
-        (T, "dot", post_dot, [(snap_A, "A0"), (snap_B, "B0")]),
-        (T, "ddot", post_ddot, [(snap_A, "A0"), (snap_B, "B0")]),
-        (T, "dddot", post_dddot, [(snap_A, "A0"), (snap_B, "B0")]),
+        (T, "dya", post_dya, [(snap_A, "A0"), (snap_B, "B0"), (snap_outkind, "outkind")]),
+        (T, "cdya_ik", post_cdya_ik, [(snap_A, "A0"), (snap_B, "B0"), (snap_outkind, "outkind")]),
+        (T, "cdya_il", post_cdya_il, [(snap_A, "A0"), (snap_B, "B0"), (snap_outkind, "outkind")]),
+        (T, "cdya", post_cdya, [(snap_A, "A0"), (snap_B, "B0"), (snap_outkind, "outkind")]),
+        (T, "dot", post_dot, [(snap_A, "A0"), (snap_B, "B0"), (snap_outkind, "outkind")]),
+        (T, "ddot", post_ddot, [(snap_A, "A0"), (snap_B, "B0"), (snap_outkind, "outkind")]),
+        (T, "dddot", post_dddot, [(snap_A, "A0"), (snap_B, "B0"), (snap_outkind, "outkind")]),
         (T, "cross", post_cross, [(snap_a, "a0"), (snap_b, "b0")]),
         (T, "eigh", post_eigh, [(snap_a, "a0")]),
         (T, "eig", post_eig, [(snap_a, "a0")]),
@@ -766,14 +960,14 @@ def install(run, first=10 ** 9, every=1):
         (T, "eigvals", post_eigvals, [(snap_a, "a0")]),
         (T, "tovoigt", post_tovoigt, [(snap_A, "A0")]),
         (T, "equivalent_von_mises", post_von_mises, [(snap_A, "A0")]),
-        (T, "inplane", post_inplane, [(snap_A, "A0")]),
+        (T, "inplane", post_inplane, [(snap_A, "A0"), (snap_vectors, "v0")]),
         (T, "identity", post_identity, []),
         (T, "reshape", post_reshape, []),
         (T, "ravel", post_ravel, []),
         (S, "solve_nd", post_solve_nd, [(snap_A, "A0"), (snap_b, "b0")]),
         (SP, "rotation_matrix", post_rotation_matrix, []),
-        (FL, "strain_stretch_1d", post_strain_stretch_1d, []),
-        (FL, "strain", post_strain, []),
+        (FL, "strain_stretch_1d", post_strain_stretch_1d, [(snap_stretch, "s0")]),
+        (FL, "strain", post_strain, [(snap_C, "C0")]),
         (M, "linsteps", post_linsteps, []),
     ]
     n_alias = 0
